@@ -18,7 +18,7 @@ def gen(tier, rng, shard, nshards):
                "start": S.pick(rng, ["given", "given", "given", "default", "batched"]),
                "m": S.pick(rng, ["1", "2", "n//2", "n-1", "n", "n+3", "n+10", "default"]),
                "tol": float(S.pick(rng, [1e-12, 1e-12, 1e-8, 1e-5])), "fn": S.pick(rng, ["arnoldi", "arnoldi", "arnoldi", "arnoldi_eigs", "Arnoldi()"]),
-               "real_start": bool(rng.random() < 0.3), "wide_start": bool(rng.random() < 0.25)}
+               "real_start": bool(rng.random() < 0.3), "wide_start": bool(rng.random() < 0.25), "opscale": float(S.pick(rng, [1.0, 1.0, 1.0, 1e-9, 1e9]))}
 
 
 def min_rel_residual(M, v, m):
@@ -156,7 +156,7 @@ def run_case(ctx, case):
         # zero rows / columns that pad H (more steps asked than run: breakdown, or more than n) must not come back as
         # eigenvalues: no returned eigenvector column is zero and no returned value is 0 (the spectra here have modulus >= 1)
         normM = np.linalg.norm(M, 2)
-        okz = Vd.shape == (n, len(vals)) and np.linalg.norm(Vd, axis=0).min(initial=1.0) > 1e-8 and np.abs(vals).min(initial=1.0) > 1e-8 * normM
+        okz = Vd.shape == (n, len(vals)) and np.linalg.norm(Vd, axis=0).min(initial=1.0) > 1e-8 and (np.abs(vals).min() if len(vals) else np.inf) > 1e-8 * normM
         ctx.check("no-eigenpairs-from-padding", bool(okz), site="arnoldi_eigs", preds=preds,
                   detail={"values": vals, "m": m_used, "n": n, "min_vector_norm": float(np.linalg.norm(Vd, axis=0).min(initial=1.0)) if Vd.ndim == 2 else None})
         if degree is not None and degree < n and m_used > degree and case["tol"] <= 1e-8 and len(vals) <= degree + 1:
